@@ -756,8 +756,20 @@ def _reapplies(world, jir, je):
         ref, pre = resolve_callee(world.ev, leaf)
         if ref is None or ref.qual != je.prim_id:
             return False
-        if not leaf.args or not (leaf.args[0].op == "sym" and leaf.args[0].get("role") == "g"):
+        k = je.argnum if isinstance(je.argnum, int) else 0
+        if len(leaf.args) <= k or not (leaf.args[k].op == "sym" and leaf.args[k].get("role") == "g"):
             return False
+        # every other positional argument of the primitive is handed on unchanged
+        for i, a in enumerate(leaf.args):
+            if i != k and not ((a.op == "arg" and a.index == i) or (a.op == "star" and a.x.op == "rest" and a.x.start == i)):
+                return False
+        from .common import prim_positional_arity
+
+        ar = prim_positional_arity(world, je.prim)
+        if ar is not None and ar[1] is None:
+            # variadic primitive: the remaining arguments must be forwarded too
+            if not any(a.op == "star" and a.x.op == "rest" for a in leaf.args):
+                return False
     return True
 
 
